@@ -24,7 +24,7 @@ def main():
     out = os.path.join(VERIF, 'seeded', sid)
     os.makedirs(out, exist_ok=True)
     for f in ('patch.diff', 'demo.cpp', 'notes.md', 'flags.txt'):
-        if os.path.exists(os.path.join(src, f)):
+        if os.path.exists(os.path.join(src, f)) and os.path.abspath(src) != os.path.abspath(out):
             shutil.copy(os.path.join(src, f), os.path.join(out, f))
     flags = '-std=c++17'
     if os.path.exists(os.path.join(out, 'flags.txt')):
@@ -32,25 +32,29 @@ def main():
         flags = fl if '-std=' in fl else '-std=c++17 ' + fl
     meta = dict(id=sid, demo_flags=flags, property=prop, source='independent sub-agent given only the property text and a scratch worktree')
     wt = '/tmp/seedwt_%s' % sid
+    recheck = os.environ.get('RECHECK') == '1'       # only re-run our checks against the stored patch
+    if recheck:
+        meta = json.load(open(os.path.join(out, 'meta.json')))
     sh('git -C /repo worktree remove --force %s' % wt)
     r = sh('git -C /repo worktree add --detach %s HEAD' % wt)
     try:
-        # demo on the clean tree
-        r = sh('g++ %s -I%s/include %s/demo.cpp -o %s/demo_clean && %s/demo_clean' % (flags, wt, out, wt, wt), timeout=600)
-        meta['demo_clean_exit'] = r.returncode
-        r = sh('git -C %s apply %s/patch.diff' % (wt, out))
-        meta['patch_applies'] = r.returncode == 0
-        r = sh('g++ %s -I%s/include %s/demo.cpp -o %s/demo_mut && %s/demo_mut' % (flags, wt, out, wt, wt), timeout=600)
-        meta['demo_mutated_exit'] = r.returncode
-        meta['demo_mutated_tail'] = r.stdout[-400:]
-        if os.environ.get('SKIP_SUITE') != '1':
-            t0 = time.time()
-            r = sh('cmake -G Ninja -S %s -B %s/_build -DCMAKE_BUILD_TYPE=RelWithDebInfo -DCMAKE_CXX_FLAGS=-Wno-error '
-                   '-DTROMPELOEIL_BUILD_TESTS=ON >/dev/null 2>&1 && cmake --build %s/_build -j%s >/dev/null 2>&1; %s/_build/test/self_test | tail -2'
-                   % (wt, wt, wt, os.environ.get('JOBS', '8'), wt), timeout=3000)
-            meta['suite_with_patch'] = r.stdout.strip()[-200:]
-            meta['suite_passes'] = 'All tests passed' in r.stdout
-            meta['suite_wall_s'] = round(time.time() - t0)
+      if not recheck:
+          # demo on the clean tree
+          r = sh('g++ %s -I%s/include %s/demo.cpp -o %s/demo_clean && %s/demo_clean' % (flags, wt, out, wt, wt), timeout=600)
+          meta['demo_clean_exit'] = r.returncode
+          r = sh('git -C %s apply %s/patch.diff' % (wt, out))
+          meta['patch_applies'] = r.returncode == 0
+          r = sh('g++ %s -I%s/include %s/demo.cpp -o %s/demo_mut && %s/demo_mut' % (flags, wt, out, wt, wt), timeout=600)
+          meta['demo_mutated_exit'] = r.returncode
+          meta['demo_mutated_tail'] = r.stdout[-400:]
+          if os.environ.get('SKIP_SUITE') != '1':
+              t0 = time.time()
+              r = sh('cmake -G Ninja -S %s -B %s/_build -DCMAKE_BUILD_TYPE=RelWithDebInfo -DCMAKE_CXX_FLAGS=-Wno-error '
+                     '-DTROMPELOEIL_BUILD_TESTS=ON >/dev/null 2>&1 && cmake --build %s/_build -j%s >/dev/null 2>&1; %s/_build/test/self_test | tail -2'
+                     % (wt, wt, wt, os.environ.get('JOBS', '8'), wt), timeout=3000)
+              meta['suite_with_patch'] = r.stdout.strip()[-200:]
+              meta['suite_passes'] = 'All tests passed' in r.stdout
+              meta['suite_wall_s'] = round(time.time() - t0)
     finally:
         sh('git -C /repo worktree remove --force %s' % wt)
     # our checks against a scratch copy of the tree with the patch applied (VERIF_REPO), evidence and
@@ -75,6 +79,10 @@ def main():
     finally:
         sh('git -C /repo worktree remove --force %s' % wt2)
         shutil.rmtree(outdir, ignore_errors=True)
+    if recheck:
+        old = meta.get('checks', {})
+        old.update(results)
+        results = old
     meta['checks'] = results
     meta['detected_by'] = [c for c, v in results.items() if v['exit'] != 0]
     json.dump(meta, open(os.path.join(out, 'meta.json'), 'w'), indent=1)
